@@ -130,6 +130,10 @@ class Box:
 '''
 
 
+FINGERPRINTED = {'bytearray', 'deque', 'int_key_dict', 'tuple_key_dict', 'none_key_dict', 'mixed_key_dict', 'list_subclass',
+                 'set_mixed', 'surrogate_key_dict'}
+
+
 def catalogue_leg(c, wd, ntp):
     from deep.push import convert_snapshot
     mod, path, marks = R.write_host(wd, HOST)
@@ -137,6 +141,7 @@ def catalogue_leg(c, wd, ntp):
     for label, factory in catalogue():
         for place in ('local', 'in_list', 'in_dict', 'in_obj', 'watch'):
             value = factory()
+            pristine = factory() if label in FINGERPRINTED else None
             mod.H = [value]
             rg = R.Rig()
             try:
@@ -190,8 +195,12 @@ def catalogue_leg(c, wd, ntp):
                         except Exception as ex:
                             bad = 'snapshot cannot be serialised: %r' % (ex,)
                             break
-                    if not bad and label == 'generator' and place == 'local' and next(value) != 'first':
-                        bad = 'the generator was advanced by the agent'
+                    # the program's data is as it was: one-shot iterators not advanced, containers not modified
+                    first = {'generator': 'first', 'map': '1', 'zip': (1, 2)}
+                    if not bad and label in first and next(value) != first[label]:
+                        bad = 'the %s was advanced by the agent' % label
+                    if not bad and label in FINGERPRINTED and value != pristine:
+                        bad = 'the value was modified by the agent: %r, was %r' % (value, pristine)
                 c.traces_validated += 1
                 c.note_case(key=('catalogue', label, place, ntp), nontrivial=True)
                 if bad:
